@@ -67,6 +67,7 @@ type corpus struct {
 	// every case that may decrypt them
 	secStatic    openpgp.EntityList // unprotected secret keys, parsed once
 	secProtected [][]byte
+	protCache    []openpgp.EntityList // parsed secProtected; an entry is re-parsed once a prompt decrypted one of its keys
 	notes        []string
 	counts       map[string]int
 	rsaSigner    *openpgp.Entity
@@ -443,6 +444,38 @@ func compressPkt(algo byte, inner []byte) rawPkt {
 	return pk[0]
 }
 
+// storedPkt wraps inner in a Compressed Data packet whose deflate stream
+// consists of stored (uncompressed) blocks, written by hand from RFC 1951
+// §3.2.4 / RFC 1950 (cheap: used for deep nesting).
+func storedPkt(algo byte, inner []byte) rawPkt {
+	var d []byte
+	b := inner
+	for {
+		n := min(len(b), 65535)
+		fin := byte(0)
+		if n == len(b) {
+			fin = 1
+		}
+		d = append(d, fin, byte(n), byte(n>>8), ^byte(n), ^byte(n>>8))
+		d = append(d, b[:n]...)
+		b = b[n:]
+		if fin == 1 {
+			break
+		}
+	}
+	if algo == 2 {
+		a, c := uint32(1), uint32(0)
+		for _, x := range inner {
+			a = (a + uint32(x)) % 65521
+			c = (c + a) % 65521
+		}
+		sum := c<<16 | a
+		d = append(append([]byte{0x78, 0x01}, d...), byte(sum>>24), byte(sum>>16), byte(sum>>8), byte(sum))
+		return rawPkt{Tag: 8, NewFmt: true, Body: append([]byte{2}, d...)}
+	}
+	return rawPkt{Tag: 8, NewFmt: true, Body: append([]byte{1}, d...)}
+}
+
 type nopWC struct{ io.Writer }
 
 func (nopWC) Close() error { return nil }
@@ -538,16 +571,39 @@ func (c *corpus) loadKeys() {
 func (c *corpus) fullRing() openpgp.EntityList {
 	el := append(openpgp.EntityList(nil), c.pubRing...)
 	el = append(el, c.secStatic...)
-	for _, b := range c.secProtected {
-		safely(func() error {
-			e, err := openpgp.ReadKeyRing(bytes.NewReader(b))
-			if err == nil {
-				el = append(el, e...)
-			}
-			return err
-		})
+	if c.protCache == nil {
+		c.protCache = make([]openpgp.EntityList, len(c.secProtected))
+	}
+	for i, b := range c.secProtected {
+		if c.protCache[i] == nil || !allEncrypted(c.protCache[i]) {
+			c.protCache[i] = nil
+			safely(func() error {
+				e, err := openpgp.ReadKeyRing(bytes.NewReader(b))
+				if err == nil {
+					c.protCache[i] = e
+				}
+				return err
+			})
+		}
+		el = append(el, c.protCache[i]...)
 	}
 	return el
+}
+
+// allEncrypted reports whether every protected secret key of el is still in
+// its encrypted (as parsed) state.
+func allEncrypted(el openpgp.EntityList) bool {
+	for _, e := range el {
+		if e.PrivateKey != nil && !e.PrivateKey.Encrypted {
+			return false
+		}
+		for _, s := range e.Subkeys {
+			if s.PrivateKey != nil && !s.PrivateKey.Encrypted {
+				return false
+			}
+		}
+	}
+	return true
 }
 
 func (c *corpus) addGPG() {
@@ -677,7 +733,7 @@ func (c *corpus) addFresh() {
 			if err != nil {
 				return err
 			}
-			w.Write(bigText[:100+900*i])
+			w.Write(bigText[:100+800*i])
 			return w.Close()
 		})
 		if err == nil {
